@@ -129,6 +129,31 @@ let uty_sx (t : Scan.unsigned_num_type) : string =
 let sty_sx (t : Scan.signed_num_type) : string =
   match t with Scan.I8 -> "i8" | Scan.I16 -> "i16" | Scan.I32 -> "i32" | Scan.I64 -> "i64" | Scan.UnspecifiedS -> "sunspec"
 
+let rec utype_sx (ty : ParseExpr.utype) : string =
+  match ty with
+  | ParseExpr.UTBool -> "bool" | ParseExpr.UTUnsigned u -> uty_sx u | ParseExpr.UTSigned s -> sty_sx s
+  | ParseExpr.UTNamed n -> Printf.sprintf "(named %s)" (str_of_codes n)
+  | ParseExpr.UTTuple ts -> Printf.sprintf "(tuplety%s)" (String.concat "" (Stdlib.List.map (fun t -> " " ^ utype_sx t) ts))
+  | ParseExpr.UTArray (t, n) -> Printf.sprintf "(arr %s %s)" (utype_sx t) (string_of_n n)
+  | ParseExpr.UTArrayConst (t, c) -> Printf.sprintf "(arrc %s %s)" (utype_sx t) (str_of_codes c)
+
+let rec upat_sx (p : ParseExpr.upattern) : string =
+  let list ps = String.concat "" (Stdlib.List.map (fun x -> " " ^ upat_sx x) ps) in
+  let fields fs = String.concat "" (Stdlib.List.map (fun (f, x) -> Printf.sprintf " (%s %s)" (str_of_codes f) (upat_sx x)) fs) in
+  match p with
+  | ParseExpr.PIdentifier s -> Printf.sprintf "(pid %s)" (str_of_codes s)
+  | ParseExpr.PTrue -> "(ptrue)"
+  | ParseExpr.PFalse -> "(pfalse)"
+  | ParseExpr.PNumUnsigned (n, t) -> Printf.sprintf "(pnu %s %s)" (string_of_n n) (uty_sx t)
+  | ParseExpr.PNumSigned (z, t) -> Printf.sprintf "(pns %s %s)" (string_of_z z) (sty_sx t)
+  | ParseExpr.PTuple ps -> Printf.sprintf "(ptup%s)" (list ps)
+  | ParseExpr.PStruct (n, fs) -> Printf.sprintf "(pstruct %s%s)" (str_of_codes n) (fields fs)
+  | ParseExpr.PStructIgnoreRemaining (n, fs) -> Printf.sprintf "(pstructrest %s%s)" (str_of_codes n) (fields fs)
+  | ParseExpr.PEnumUnit (e, v) -> Printf.sprintf "(penumu %s %s)" (str_of_codes e) (str_of_codes v)
+  | ParseExpr.PEnumTuple (e, v, ps) -> Printf.sprintf "(penumt %s %s%s)" (str_of_codes e) (str_of_codes v) (list ps)
+  | ParseExpr.PUnsignedInclusiveRange (a, b, t) -> Printf.sprintf "(purange %s %s %s)" (string_of_n a) (string_of_n b) (uty_sx t)
+  | ParseExpr.PSignedInclusiveRange (a, b, t) -> Printf.sprintf "(psrange %s %s %s)" (string_of_z a) (string_of_z b) (sty_sx t)
+
 let rec uexpr_sx (e : ParseExpr.uexpr) : string =
   let list es = String.concat "" (Stdlib.List.map (fun x -> " " ^ uexpr_sx x) es) in
   match e with
@@ -153,11 +178,40 @@ let rec uexpr_sx (e : ParseExpr.uexpr) : string =
     Printf.sprintf "(op %s %s %s)" n (uexpr_sx l) (uexpr_sx r)
   | ParseExpr.UFnCall (f, args) -> Printf.sprintf "(call %s%s)" (str_of_codes f) (list args)
   | ParseExpr.UIf (c, t, x) -> Printf.sprintf "(if %s %s %s)" (uexpr_sx c) (uexpr_sx t) (uexpr_sx x)
-  | ParseExpr.UCast (ty, x) ->
-    let t = match ty with
-      | ParseExpr.UTBool -> "bool" | ParseExpr.UTUnsigned u -> uty_sx u | ParseExpr.UTSigned s -> sty_sx s
-      | ParseExpr.UTNamed n -> Printf.sprintf "(named %s)" (str_of_codes n) in
-    Printf.sprintf "(cast %s %s)" t (uexpr_sx x)
+  | ParseExpr.UCast (ty, x) -> Printf.sprintf "(cast %s %s)" (utype_sx ty) (uexpr_sx x)
+  | ParseExpr.UBlock ss -> Printf.sprintf "(block%s)" (String.concat "" (Stdlib.List.map (fun x -> " " ^ ustmt_sx x) ss))
+  | ParseExpr.UMatch (x, arms) ->
+    Printf.sprintf "(match %s%s)" (uexpr_sx x)
+      (String.concat "" (Stdlib.List.map (fun (p, b) -> Printf.sprintf " (arm %s %s)" (upat_sx p) (uexpr_sx b)) arms))
+and ustmt_sx (s : ParseExpr.ustmt) : string =
+  let tyopt t = match t with None -> "(noty)" | Some t -> Printf.sprintf "(ty %s)" (utype_sx t) in
+  match s with
+  | ParseExpr.SLet (p, t, e) -> Printf.sprintf "(let %s %s %s)" (upat_sx p) (tyopt t) (uexpr_sx e)
+  | ParseExpr.SLetMut (x, t, e) -> Printf.sprintf "(letmut %s %s %s)" (str_of_codes x) (tyopt t) (uexpr_sx e)
+  | ParseExpr.SVarAssign (x, accs, e) ->
+    let a = String.concat "" (Stdlib.List.map (fun a -> match a with
+      | ParseExpr.AArray i -> Printf.sprintf " (aidx %s)" (uexpr_sx i)
+      | ParseExpr.ATuple n -> Printf.sprintf " (atup %s)" (string_of_n n)
+      | ParseExpr.AStruct f -> Printf.sprintf " (afld %s)" (str_of_codes f)) accs) in
+    Printf.sprintf "(assign %s (accs%s) %s)" (str_of_codes x) a (uexpr_sx e)
+  | ParseExpr.SForEach (p, e, ss) ->
+    Printf.sprintf "(for %s %s (body%s))" (upat_sx p) (uexpr_sx e) (String.concat "" (Stdlib.List.map (fun x -> " " ^ ustmt_sx x) ss))
+  | ParseExpr.SExpr e -> Printf.sprintf "(expr %s)" (uexpr_sx e)
+
+let rec nat_of_int n = if n <= 0 then Datatypes.O else Datatypes.S (nat_of_int (n - 1))
+
+(* (pblock id (src "body text")) -> (stmts ..) | (err) | (outside) | (nofuel) *)
+let job_pblock (job : Sx.t) : string =
+  let text = Sx.bytes (Stdlib.List.hd (Sx.args (Sx.field job "src"))) in
+  match Scan.scan_text (bytes_of_string text) with
+  | Util.Ok (Scan.STokens ts) ->
+    (match ParseExpr.parse_block_text (nat_of_int (80 + 40 * Stdlib.List.length ts)) ts with
+     | ParseExpr.POk (ss, _) -> Printf.sprintf "(stmts%s)" (String.concat "" (Stdlib.List.map (fun x -> " " ^ ustmt_sx x) ss))
+     | ParseExpr.PErr -> "(err)"
+     | ParseExpr.PNoFuel -> "(nofuel)"
+     | ParseExpr.POutside _ -> "(outside)")
+  | Util.Ok (Scan.SErrors _) -> "(err)"
+  | _ -> "(crash)"
 
 (* (pexpr id (src "text")) -> (tree ..) | (err) | (outside) *)
 let job_pexpr (job : Sx.t) : string =
@@ -166,7 +220,6 @@ let job_pexpr (job : Sx.t) : string =
   | Util.Ok (Scan.STokens ts) ->
     (* fuel: every level of the precedence chain spends one unit before a token is consumed; 40 units per
        token (plus a constant) is far above what any input needs, and running out is reported, never guessed *)
-    let rec nat_of_int n = if n <= 0 then Datatypes.O else Datatypes.S (nat_of_int (n - 1)) in
     (match ParseExpr.parse_expr_st (nat_of_int (60 + 40 * Stdlib.List.length ts)) { ParseExpr.toks = ts; ParseExpr.sla = true } with
      | ParseExpr.POk (e, st) -> if st.ParseExpr.toks = [] then Printf.sprintf "(tree %s)" (uexpr_sx e) else "(err)"
      | ParseExpr.PErr -> "(err)"
